@@ -95,6 +95,8 @@ type seqOut struct {
 
 // blockedObs: what was observed when a child whose predecessors had all hung up got no answer in time.
 type blockedObs struct {
+	Cause     string   `json:"cause"`     // "drop" (earlier children hung up) | "pause" (the child itself was silent for a long time) | "accept-fault"
+	Pause     string   `json:"pause,omitempty"`
 	Child     int      `json:"child"`     // the child that waited
 	Step      string   `json:"step"`      // the request it waited for
 	Waited    string   `json:"waited"`    // "step" (the Instance call never came) or "reply"
@@ -415,7 +417,9 @@ type driver struct {
 	hook    bool
 	trace   *lineWriter
 	tmo     time.Duration // deadline of every single wait on the real code (normally it answers within a millisecond)
-	behTmo  time.Duration // deadline of a whole behaviour
+	behTmo  time.Duration // deadline of a whole behaviour (pauses excluded)
+	pause   time.Duration // real length of a "pause" event
+	burstN  int           // size of the bursts of connect-and-hang-up children
 	hangs   int           // behaviours in which a later child was blocked
 	done    int
 }
@@ -443,6 +447,8 @@ type run struct {
 	lenientTerm bool    // real signal, previous terminate not separated from this one by any driver action
 	stash  []pev        // gated calls that arrived early (not released yet), kept for their own event
 	dropped  []int      // children that have hung up so far
+	paused   map[int]bool // child was silent for a long time since its last request
+	faulted  bool       // a transient accept failure was induced in this run
 	deadline time.Time  // of the whole behaviour
 	inEpi  bool         // the later child of the epilogue is running: its calls are kept apart
 	exited bool         // the parent was shut down (exit event)
@@ -460,12 +466,22 @@ func (r *run) blocked(c int, step, waited, where string) {
 			earlier = append(earlier, d)
 		}
 	}
-	if len(earlier) == 0 {
+	cause := ""
+	switch {
+	case r.paused[c]:
+		cause = "pause" // nothing but time passed on this child's own connection
+	case r.faulted:
+		cause = "accept-fault"
+	case len(earlier) > 0:
+		cause = "drop"
+	default:
 		return
 	}
-	for oc := range r.conns {
-		if oc != c {
-			return // another child is still connected: waiting behind it is what the code is meant to do
+	if cause != "pause" {
+		for oc := range r.conns {
+			if oc != c {
+				return // another child is still connected: waiting behind it is what the code is meant to do
+			}
 		}
 	}
 	perf := []string{}
@@ -474,8 +490,36 @@ func (r *run) blocked(c int, step, waited, where string) {
 			perf = append(perf, x)
 		}
 	}
-	r.out.Blocked = &blockedObs{Child: c, Step: step, Waited: waited, Where: where, Dropped: earlier,
+	r.out.Blocked = &blockedObs{Cause: cause, Child: c, Step: step, Waited: waited, Where: where, Dropped: earlier,
 		Performed: perf, Deadline: r.d.tmo.String()}
+	if cause == "pause" {
+		r.out.Blocked.Pause = r.d.pause.String()
+	}
+}
+
+// starvedConnect: child c connects while the old process has no file descriptor left (accept fails with EMFILE);
+// the shortage ends a moment later.
+func (r *run) starvedConnect(c int) error {
+	r.d.p.send(pcmd{Cmd: "starve"})
+	if _, err := r.d.p.waitCtl("starved", 3*time.Second); err != nil {
+		return fmt.Errorf("could not exhaust the descriptors of the parent worker: %v", err)
+	}
+	err := r.connect(c)
+	time.Sleep(60 * time.Millisecond)
+	r.d.p.send(pcmd{Cmd: "feed"})
+	if _, err2 := r.d.p.waitCtl("fed", 3*time.Second); err2 != nil && err == nil {
+		err = fmt.Errorf("the parent worker did not release its descriptors: %v", err2)
+	}
+	return err
+}
+
+// burst: n children that connect and hang up at once, nothing sent (model: children that connect and drop).
+func (r *run) burst(n int) {
+	for i := 0; i < n; i++ {
+		if conn, err := net.DialTimeout("unix", r.sock, r.d.tmo); err == nil {
+			conn.Close()
+		}
+	}
 }
 
 func (r *run) note(k, f string, a ...interface{}) {
@@ -832,7 +876,7 @@ func (d *driver) replay(b *behIn) seqOut {
 		return out
 	}
 	r := &run{d: d, out: &out, conns: map[int]*net.UnixConn{}, sock: hotrestart.VerifSocketName(id), waitAt: map[int]bool{},
-		deadline: time.Now().Add(d.behTmo)}
+		paused: map[int]bool{}, deadline: time.Now().Add(d.behTmo)}
 	maxChild, exited := 0, false
 	replied := map[int]bool{} // the behaviour says: a reply for child c is in flight, unread
 	termsSeen, sentSinceKill := 0, false
@@ -861,7 +905,32 @@ func (d *driver) replay(b *behIn) seqOut {
 		}
 		switch e.A {
 		case "connect":
-			if err := r.connect(e.C); err != nil {
+			fault := i+1 < len(b.Beh) && b.Beh[i+1].A == "acceptfault"
+			if d.burstN > 0 && !fault {
+				// a child that connects and hangs up without a word comes as a burst of such children
+				for _, f := range b.Beh[i+1:] {
+					if f.C == e.C && (f.A == "send" || f.A == "sendbad" || f.A == "drop") {
+						if f.A == "drop" {
+							r.burst(d.burstN)
+						}
+						break
+					}
+				}
+			}
+			var err error
+			if fault {
+				err = r.starvedConnect(e.C)
+				r.faulted = true
+			} else {
+				err = r.connect(e.C)
+			}
+			if err != nil && fault && r.conns[e.C] != nil {
+				// connected, but the shortage could not be produced / ended: infrastructure
+				out.Infra = err.Error()
+				r.abort = true
+				continue
+			}
+			if err != nil {
 				if !r.diedMeanwhile(fmt.Sprintf("(child %d could not connect)", e.C)) {
 					r.note("connect-failed", "child %d: %v", e.C, err)
 					out.Followed = false
@@ -870,6 +939,15 @@ func (d *driver) replay(b *behIn) seqOut {
 				continue
 			}
 			r.log("connect", e.C, "")
+			if fault {
+				r.log("acceptfault", e.C, "")
+			}
+		case "pause":
+			// time passes; nothing else happens.  The deadline of the behaviour does not count it.
+			time.Sleep(d.pause)
+			r.deadline = r.deadline.Add(d.pause)
+			r.paused[e.C] = true
+			r.log("pause", e.C, "")
 		case "refused":
 			if err := r.connect(e.C); err == nil {
 				// a connection to a process that is gone must not be served
@@ -889,6 +967,12 @@ func (d *driver) replay(b *behIn) seqOut {
 				// the parent is gone: the write fails or goes nowhere, the child learns it at its next read
 			} else if err != nil {
 				if !r.diedMeanwhile(fmt.Sprintf("(child %d could not send %s)", e.C, e.X)) {
+					if r.paused[e.C] {
+						// nobody but the old process can have closed this connection
+						r.blocked(e.C, e.X, "connection (closed by the old process: "+err.Error()+")", "behaviour")
+						r.note("missing-reply", "child %d could not send %s after its pause: %v", e.C, e.X, err)
+						continue
+					}
 					r.note("send-failed", "child %d %s: %v", e.C, e.X, err)
 					out.Followed = false
 					r.abort = true
@@ -957,11 +1041,15 @@ func (d *driver) replay(b *behIn) seqOut {
 			delete(r.waitAt, e.C)
 			if name == "eof" {
 				r.log("eof", e.C, "")
+				if r.paused[e.C] {
+					r.blocked(e.C, e.X, "reply (the old process closed the connection)", "behaviour")
+				}
 				r.note("missing-reply", "child %d: connection ended instead of %s", e.C, e.X)
 				r.abort = true
 				continue
 			}
 			r.log("recv", e.C, name)
+			delete(r.paused, e.C) // answered: the pause did no harm
 		case "drop":
 			r.drop(e.C, replied[e.C])
 			replied[e.C] = false
@@ -1211,13 +1299,15 @@ func seqMain(args []string) error {
 	api := fs.Bool("api", false, "also run the package's own child side once")
 	maxHangs := fs.Int("maxhangs", 3, "stop after this many behaviours in which a later child was blocked")
 	waitTmo := fs.Duration("wait", 2*time.Second, "deadline of every single wait on the real code")
+	pause := fs.Duration("pause", 11*time.Second, "real length of a pause event (a child silent on its open connection)")
+	burst := fs.Int("burst", 0, "a child that connects and hangs up without sending comes with this many more such children")
 	if err := fs.Parse(args); err != nil {
 		return err
 	}
 	if *logp == "" {
 		*logp = *outp + ".parent.log"
 	}
-	d := &driver{logPath: *logp, hook: *kill == "hook", tmo: *waitTmo, behTmo: 15 * time.Second, badIdx: int(cli.Seed()) * 7, unkIdx: int(cli.Seed()) * 3}
+	d := &driver{logPath: *logp, hook: *kill == "hook", tmo: *waitTmo, behTmo: 15 * time.Second, pause: *pause, burstN: *burst, badIdx: int(cli.Seed()) * 7, unkIdx: int(cli.Seed()) * 3}
 	if *badp != "" {
 		if err := cli.ReadNDJSON(*badp, func(line []byte) error {
 			var v frameIn
